@@ -5,6 +5,7 @@ import SymfcModel.Model.Eig
 import SymfcModel.Gen.Eig
 import SymfcModel.Lemmas.LinAlg
 import SymfcModel.Lemmas.EigBook
+import SymfcModel.Lemmas.Pipeline
 namespace Symfc.C09
 open Symfc Matrix
 
@@ -53,5 +54,16 @@ theorem large_path_sub_block_size_positive (p : Nat) :
   have h := targetSize_bounds_gen Gen.eigTargetDiv Gen.eigTargetLo Gen.eigTargetHi p (by decide)
   have : 0 < Gen.eigTargetLo := by decide
   omega
+
+omit [LinearOrder K] [IsStrictOrderedRing K] in
+/-- C09 for the whole pipeline: `B = c_pt · W₂ · W₃` has orthonormal columns whenever `c_pt` has (L1) and the two
+    eigen-solver calls return orthonormal eigenvector matrices (eigen contract). -/
+theorem pipeline_basis_is_orthonormal {k₁ k₂ k₃ r : Type*} [Fintype k₁] [Fintype k₂] [Fintype k₃] [Fintype r]
+    [DecidableEq k₁] [DecidableEq k₂] [DecidableEq k₃]
+    (A : Matrix m k₁ K) (P : Matrix m m K) (T : Matrix r m K) (ν : K) (W₂ : Matrix k₁ k₂ K) (W₃ : Matrix k₂ k₃ K)
+    (hA : Aᵀ * A = 1) (h₂ : Pipeline.EigBasis (Aᵀ * P * A) W₂)
+    (h₃ : Pipeline.EigBasis (Pipeline.sumruleProj (A * W₂) T ν) W₃) :
+    (A * W₂ * W₃)ᵀ * (A * W₂ * W₃) = 1 :=
+  Pipeline.pipeline_orthonormal A P T ν W₂ W₃ hA h₂ h₃
 
 end Symfc.C09
